@@ -72,19 +72,19 @@ func (l *EventLog) Digest() string {
 
 // simReader is the simulated disk/pipe behind one input file.
 type simReader struct {
-	id    int
-	data  []byte
-	pos   int
-	steps []Step
-	si    int  // current step
-	left  int  // bytes left in the current step (valid if armed)
-	armed bool // current step loaded
-	term  error // terminal condition already returned (io.EOF or ErrInjected)
-	extra int   // Read calls after the terminal condition
-	reads int
+	id     int
+	data   []byte
+	pos    int
+	steps  []Step
+	si     int   // current step
+	left   int   // bytes left in the current step (valid if armed)
+	armed  bool  // current step loaded
+	term   error // terminal condition already returned (io.EOF or ErrInjected)
+	extra  int   // Read calls after the terminal condition
+	reads  int
 	closes int
-	log   *EventLog
-	mu    sync.Mutex // a tool may read its input in a goroutine of its own while the harness inspects the reader
+	log    *EventLog
+	mu     sync.Mutex // a tool may read its input in a goroutine of its own while the harness inspects the reader
 }
 
 func newSimReader(id int, data []byte, steps []Step, log *EventLog) *simReader {
